@@ -35,6 +35,7 @@ import (
 
 	"github.com/AliceO2Group/Control/common/gera"
 	"github.com/AliceO2Group/Control/common/logger"
+	"github.com/AliceO2Group/Control/common/verifhook"
 	"github.com/AliceO2Group/Control/configuration/componentcfg"
 	"github.com/AliceO2Group/Control/core/repos"
 	"github.com/expr-lang/expr"
@@ -95,6 +96,7 @@ func (sf Sequence) Execute(confSvc ConfigurationService,
 			return
 		}
 
+		verifhook.Point("vs.stage", "path", parentPath, "stage", i, "stack", stagedStack)
 		objectStack := buildObjectStack(currentStage)
 
 		if fields, ok := sf[currentStage]; ok {
